@@ -699,6 +699,58 @@ def add_goal(acc, want, h, rng, name, desc, calls, kind, out, mk, inp):
     acc['metas'].append((name, desc, inp, out))
 
 
+def sip_header(rng, k):
+    """a TAN image with a SIP distortion model (A_p_q / B_p_q, order 2-3); a registered FITS convention that astropy's all_* calls -
+    the ones WCSHelper uses - apply on top of the core projection.  Reference for the sky position: astropy itself (all_pix2world),
+    i.e. only the (row, column) / 1-based reading and the inversion are checked here, not wcslib's SIP arithmetic."""
+    n = rng.choice([256, 512, 1024])
+    scale = rng.choice([2.0, 5.0, 15.0]) / 3600.0
+    h = make_header((n, n), proj='TAN', crval=(rng.choice([0.001, 359.999, 150.0]), rng.choice([-60.0, 0.0, 40.0])), cdelt=(-scale, scale),
+                    crpix=(n // 2 + 1, n // 2 + 0.5), beam=(3 * scale, 2 * scale, 10.0))
+    h['CTYPE1'], h['CTYPE2'] = 'RA---TAN-SIP', 'DEC--TAN-SIP'
+    order = rng.choice([2, 3])
+    h['A_ORDER'], h['B_ORDER'] = order, order
+    amp = rng.choice([0.3, 1.0, 2.0]) / (n / 2) ** 2        # about amp pixels of distortion at the image corners
+    for nm in ('A', 'B'):
+        for p_ in range(order + 1):
+            for q_ in range(order + 1 - p_):
+                if p_ + q_ >= 2:
+                    h[f'{nm}_{p_}_{q_}'] = rng.uniform(-1, 1) * amp / (n / 2) ** (p_ + q_ - 2)
+    return h, {'kind': 'sip', 'naxis': n, 'cards': {k_: h[k_] for k_ in h if k_.startswith(('A_', 'B_', 'CTYPE', 'CRVAL', 'CRPIX', 'CDELT'))}}
+
+
+TOL_SIP = 2e-4     # astropy's all_world2pix inverts a distortion model iteratively to its default tolerance of 1e-4 pixel
+
+
+def sip_problems(rng, nh, npts):
+    """-> (number of points, first problem dict or None).  The 1e-6 pixel of the property is met by the closed-form core projections;
+    with a distortion model the inversion is astropy's iteration (tolerance 1e-4 pixel), so that is the tolerance used here."""
+    import warnings
+    from astropy.wcs import WCS
+    npt = 0
+    for k in range(nh):
+        hdr, desc = sip_header(rng, k)
+        with warnings.catch_warnings():
+            warnings.simplefilter('ignore')
+            h = wh().WCSHelper.from_header(hdr)
+            ref = WCS(hdr, naxis=2)
+        n = desc['naxis']
+        pts = [(1.0, 1.0), (float(n), float(n)), (1.0, float(n)), (n / 2.0, n / 2.0 + 0.5)] + \
+            [(rng.uniform(1, n), rng.uniform(1, n)) for _ in range(npts)]
+        for x, y in pts:
+            npt += 1
+            ra, dec = (float(v) for v in h.pix2sky((x, y)))
+            r0, d0 = (float(v) for v in ref.all_pix2world([[y, x]], 1)[0])
+            if not ref_sep(ra, dec, r0, d0) <= TOL_STD:
+                return npt, {'kind': 'sip-point', 'header': desc, 'pixel': [x, y],
+                             'what': f'pix2sky(({x!r}, {y!r})) = ({ra!r}, {dec!r}); astropy all_pix2world for the 1-based (column, row) = ({y!r}, {x!r}) gives ({r0!r}, {d0!r})'}
+            xb, yb = (float(v) for v in h.sky2pix((ra, dec)))
+            if not (abs(xb - x) <= TOL_SIP and abs(yb - y) <= TOL_SIP):
+                return npt, {'kind': 'sip-point', 'header': desc, 'pixel': [x, y],
+                             'what': f'distorted (SIP) image: sky2pix(pix2sky(({x!r}, {y!r}))) = ({xb!r}, {yb!r}): off by ({xb - x:.3e}, {yb - y:.3e}) pixel > {TOL_SIP}'}
+    return npt, None
+
+
 def new_acc(nval):
     return {'nval': nval, 'hyp_pts': 0, 'hyp_ok': True, 'goals': [], 'metas': [], 'shape_bad': [], 'near_bad': [], 'near_pts': 0, 'skipped': 0,
             'opposite': [], 'defects': [0.0, 0.0], 'bad': {k: 0 for k in ('point', 'calls', 'vec', 'pixvec', 'ellipse', 'pixellipse', 'psf')}}
@@ -722,6 +774,14 @@ def run(ctx, model_ok=True):
     acc = new_acc(25 if quick else 60)
     for k in range(nh):
         one_header_cases(ctx, rng, k, n_cases, n_goals, model_ok, acc)
+    # distorted images (SIP): position round trip and (row, column) / 1-based reading
+    nsip, fsip = sip_problems(rng, 3 if quick else 12, 12)
+    ctx.case(key=('sip', nsip), bucket='TAN-SIP position round trip')
+    ctx.evaluations += nsip - 1
+    if fsip:
+        ctx.mismatch('pixel -> sky -> pixel on a TAN-SIP image', fsip['header'], impl=fsip['what'], is_violation=fsip)
+    ctx.oblige(f'oracle: on TAN-SIP (distorted) images sky2pix(pix2sky p) = p to {TOL_SIP} pixel (astropy iterates to 1e-4) and pix2sky reads (row, column) 1-based ({nsip} points)',
+               fsip is None, fsip and fsip['what'])
     bad = acc['bad']
     ctx.hyp['astropy.wcs: S(P p) = p (max(1e-9, 32 ulp(360)/cdelt) pixel), P(S s) = s with RA mod 360 (1e-9 deg), S(ra + 360k, dec) = S(ra, dec), on '
             'pixels of the image and a 20 pixel margin'] = acc['hyp_pts']
@@ -869,6 +929,23 @@ def replay(ctx, obj):
         for b in obj.get('broken', []):
             print('  ', b.get('what'), str(b.get('detail', b.get('case', '')))[:400])
         return 1
+    if fi.get('kind') == 'sip-point':
+        import warnings
+        c = fi['header']['cards']
+        n = fi['header']['naxis']
+        hdr = make_header((n, n), proj='TAN', crval=(c['CRVAL1'], c['CRVAL2']), cdelt=(c['CDELT1'], c['CDELT2']), crpix=(c['CRPIX1'], c['CRPIX2']),
+                          beam=(3 * c['CDELT2'], 2 * c['CDELT2'], 10.0))
+        for k_, v_ in c.items():
+            hdr[k_] = v_
+        with warnings.catch_warnings():
+            warnings.simplefilter('ignore')
+            h = wh().WCSHelper.from_header(hdr)
+        x, y = fi['pixel']
+        ra, dec = (float(v) for v in h.pix2sky((x, y)))
+        xb, yb = (float(v) for v in h.sky2pix((ra, dec)))
+        print(f'TAN-SIP header {c}')
+        print(f'implementation: pix2sky(({x}, {y})) = ({ra}, {dec}); sky2pix of that = ({xb}, {yb}); off by ({xb - x:.3e}, {yb - y:.3e}) pixel')
+        return 0 if abs(xb - x) <= TOL_SIP and abs(yb - y) <= TOL_SIP else 1
     desc, kind, inp = fi['header'], fi['kind'], fi['input']
     h = helper_of(desc)
     print('header:', desc)
